@@ -18,10 +18,44 @@ def pTrees : List Err → List String
   | e :: r => pTree e :: pTrees r
 end
 
+mutual
+/-- visible nodes in pre-order (node, then its cause / its branches) -/
+def nodes : Err → List Err
+  | .leaf id k => [.leaf id k]
+  | .barrier id m h => [.barrier id m h]
+  | .wrap id k c => .wrap id k c :: nodes c
+  | .second id c s => .second id c s :: nodes c
+  | .multi id k cs => .multi id k cs :: nodesL cs
+def nodesL : List Err → List Err
+  | [] => []
+  | e :: r => nodes e ++ nodesL r
+end
+
+/-- references are recipes or `(node j)` = the j-th visible node of the case's error -/
+def evalRefs (fuel : Nat) (e : Option Err) : List SX → Sum Res (List (Option Err))
+  | [] => .inr []
+  | .list [.sym "node", .nat j] :: r =>
+    match evalRefs fuel e r with
+    | .inr es => .inr (((e.map nodes).getD [])[j]? :: es)
+    | .inl x => .inl x
+  | x :: r =>
+    match evalR fuel x with
+    | .ok v =>
+      match evalRefs fuel e r with
+      | .inr es => .inr (v :: es)
+      | .inl x => .inl x
+    | x => .inl x
+
 def pOB : Option Bool → String
   | none => "panic"
   | some true => "n1"
   | some false => "n0"
+
+/-- `Is` vector against the references; a panicked hop makes every entry `panic` -/
+def isVec (e : Option Err) (refs : List (Option Err)) : String :=
+  match e with
+  | none => pList (refs.map fun _ => "panic")
+  | some e => pList (refs.map fun r => pOB (isOpt Full (some e) r))
 
 def hopFull (tag : Nat) (e : Err) : Option Err := hop Full Full vfStub tag e
 
@@ -45,9 +79,9 @@ def obsCase (e : Option Err) (refs : List (Option Err)) : String :=
       pList ["h1enc", pOpt (fun x => pEnc (encode Full vfStub x)) h1],
       pList ["h2enc", pOpt (fun x => pEnc (encode Full vfStub x)) h2],
       pList ["h3tree", pOpt pTree h3],
-      pList ["is", pList (refs.map fun r => pOB (isOpt Full (some e) r))],
-      pList ["h1is", pList (refs.map fun r => pOB (isOpt Full h1 r))],
-      pList ["h2is", pList (refs.map fun r => pOB (isOpt Full h2 r))]]
+      pList ["is", isVec (some e) refs],
+      pList ["h1is", isVec h1 refs],
+      pList ["h2is", isVec h2 refs]]
 
 def runLine (line : String) : String :=
   match parseLine line with
@@ -57,7 +91,7 @@ def runLine (line : String) : String :=
     | .bad why => id ++ " (bad " ++ why ++ ")"
     | .panic => id ++ " (res (panic))"
     | .ok e =>
-      match evalKids fuel refs with
+      match evalRefs fuel e refs with
       | .inl _ => id ++ " (bad refs)"
       | .inr rs => id ++ " " ++ obsCase e rs
   | some [.sym id, .list [.sym "decode", wx]] =>
